@@ -7,15 +7,25 @@ from .source import ModuleInfo
 
 
 def apply(repo, mutate):
-    """mutate = (module name, old text, new text[, occurrence])"""
+    """mutate = (module name, old text, new text[, occurrence[, scope qualname]]): with a scope, the text is searched inside the
+    source lines of that function only"""
     modname, old, new = mutate[:3]
     m = repo.modules[modname]
-    if m.text.count(old) < 1:
-        raise ValueError(f"mutant does not apply: {old!r} not in {modname}")
-    occ = mutate[3] if len(mutate) > 3 else 0
-    idx = -1
+    occ = mutate[3] if len(mutate) > 3 and mutate[3] is not None else 0
+    scope = mutate[4] if len(mutate) > 4 else None
+    lo, hi = 0, len(m.text)
+    if scope:
+        fi = repo.find(scope)
+        if fi is None:
+            raise ValueError(f"mutant scope {scope} not found")
+        lines = m.text.splitlines(keepends=True)
+        lo = sum(len(x) for x in lines[:fi.node.lineno - 1])
+        hi = sum(len(x) for x in lines[:fi.node.end_lineno])
+    if m.text.count(old, lo, hi) < 1:
+        raise ValueError(f"mutant does not apply: {old!r} not in {scope or modname}")
+    idx = lo - 1
     for _ in range(occ + 1):
-        idx = m.text.index(old, idx + 1)
+        idx = m.text.index(old, idx + 1, hi)
     text = m.text[:idx] + new + m.text[idx + len(old):]
     nm = ModuleInfo.__new__(ModuleInfo)
     nm.name, nm.path, nm.text = m.name, m.path, text
